@@ -537,7 +537,7 @@ pub fn run(args: &Args, rep: &mut Report) {
     let mut leaf_no = 0u64;
     enumerate(&Model::new(), &mut Vec::new(), depth, 3, &mut leaf_no, args, rep, &mut seen);
     rep.add("exhaustive_sequences_total_all_shards", leaf_no);
-    rep.add("exhaustive_depth", depth as u64);
+    rep.max("max_exhaustive_depth", depth as u64);
 
     // (2) random long sequences with every variant (Sink path, recv(), any sender index)
     let n_random = match args.tier.as_str() {
